@@ -563,6 +563,19 @@ def op_merge(st, op):
     return {"inputs_before": before, "inputs_after": after, "out": out}
 
 
+def op_iterate_with_delete(st, op):
+    """Full iteration; after `at` items the caller deletes `n` already delivered features through the same handle."""
+    db = st.h[op["h"]]
+    ids = []
+    deleted = []
+    for f in db.all_features():
+        ids.append(f.id)
+        if len(ids) == op["at"] and not deleted:
+            deleted = ids[: op["n"]]
+            db.delete(list(deleted), make_backup=False)
+    return {"ids": ids, "deleted": deleted}
+
+
 def op_merge_interleave(st, op):
     """Several merge() generators alive on one handle, advanced alternately."""
     db = st.h[op["h"]]
@@ -727,6 +740,7 @@ OPS = {
     "merge_all": op_merge_all,
     "update_merged": op_update_merged,
     "merge_interleave": op_merge_interleave,
+    "iterate_with_delete": op_iterate_with_delete,
     "dataiter": op_dataiter,
     "inspect": op_inspect,
     "dataiter_pair": op_dataiter_pair,
